@@ -11,7 +11,9 @@ machine and is NOT decided.  Decided is the store discipline every spelling funn
     incoming string; formatters run before the conversion
  R3 single funnel: assign() is only called from TypedArgBase::assignValue() and from derived
     assign()s chaining to their base; the handler reaches it only through assignValue()
- R4 key -> object: lookup structure (shared with C05-R2)"""
+ R4 key -> object: lookup structure (shared with C05-R2)
+ R5 tokeniser one-shot flag discipline: the 'rest of the word is the value' request lives for one
+    step of the argument iterator only (a necessary condition of spelling independence)"""
 from .. import rules
 from ..rules import (callee_is, object_of, field_name, call_args, mentions_field, mentions_call,
                      mentions_var, loops_in, loop_header)
@@ -191,6 +193,40 @@ def r3(chk, prog, tb):
     # rules of C02-R2
 
 
+def r5_one_shot_flags(chk, prog):
+    """tokeniser: the 'rest of the word is the value' request is valid for ONE step only - it is cleared
+    on every exit of operator++ (normal or by exception), and it is only raised by remArgStrAsVal()"""
+    ops = [f for f in prog.functions if (f.classq or '') == 'celma::prog_args::detail::ArgListIterator'
+           and f.short == 'operator++' and not f.params]
+    chk.require(ops, 'ArgListIterator::operator++() not instantiated')
+    flag = 'mRemainingArgumentStringAsValue'
+    for f in ops:
+        cfg = f.cfg
+        raii = [d for n in f.walk() if n.get('k') == 'DeclStmt' for d in n['decls']
+                if 'ResetAtExit' in d.get('t', '') and isinstance(d.get('init'), dict) and
+                mentions_field(d['init'], flag)]
+        ok = False
+        if raii:
+            dn = [n for n in f.walk() if n.get('k') == 'DeclStmt' and any(d in raii for d in n['decls'])][0]
+            # declared before anything else can leave the function
+            ok = not cfg.must_pass_through(lambda n: n is dn, kinds=('return', 'throw'))
+            a = children(raii[0]['init'])
+            ok = ok and len(a) >= 2 and strip_all_casts(a[1]).get('val') in (False, 0)
+        else:
+            resets = {n['id'] for n in f.walk() if n.get('k') == 'BinaryOperator' and n.get('op') == '=' and
+                      field_name(children(n)[0]) == flag and strip_all_casts(children(n)[1]).get('val') in (False, 0)}
+            ok = bool(resets) and not cfg.can_reach_exit(cfg.entry_pos(), lambda p, e: isinstance(e, int) and e in resets,
+                                                         kinds=('return',))
+        chk.check(ok, 'R5', f.name, 'the one-step request "rest of the word is the value" is cleared on every exit of '
+                  'operator++', f.loc(), 'the flag survives a step: a later word that groups flags behind one dash is '
+                  'split as flag + value although the same line spelled differently is not')
+    writers = sorted({g.short for g in prog.functions if (g.classq or '') == 'celma::prog_args::detail::ArgListIterator'
+                      for n in g.walk() if n.get('k') == 'BinaryOperator' and n.get('op') == '=' and
+                      field_name(children(n)[0]) == flag and strip_all_casts(children(n)[1]).get('val') in (True, 1)})
+    chk.check(writers == ['remArgStrAsVal'], 'R5', 'celma::prog_args::detail::ArgListIterator',
+              'the request is only raised by remArgStrAsVal()', '', 'raised in %s' % writers)
+
+
 def run(chk):
     prog, units = rules.prog_args_program()
     chk.units = units
@@ -207,7 +243,9 @@ def run(chk):
     chk.rule('R2', 'stored value = conversion of the incoming (formatted) string', 15)
     chk.rule('R3', 'single funnel into assign()', 3)
     chk.rule('R4', 'key -> object lookup (shared with C05-R2)', 4)
+    chk.rule('R5', 'tokeniser one-shot flag is consumed in one step', 2)
     r1(chk, prog, tb)
     r2(chk, prog, tb)
     r3(chk, prog, tb)
     c05.r2(chk, prog, rule='R4')
+    r5_one_shot_flags(chk, prog)
